@@ -66,7 +66,12 @@ def c15Key (args : List String) (impl : String) : String × String :=
       let h := Crypto.hash160 key
       let addr := encodeAddress H256d mainnet h
       let sc := p2pkhScript h
-      let model := s!"addr={hexOfStr addr} pkh={hexEnc h} s1={hexEnc sc} s2={hexEnc sc} s3={hexEnc sc} back={hexEnc h} addrs={hexOfStr (encodeAddress H256d true h)} new={hexEnc h} valid=1"
+      let f0 := impl.splitOn " "
+      -- the key-object routes exist only for points on the curve (the harness says n/a otherwise); when present they
+      -- must give the same address and script
+      let ecA := if fieldD f0 "aec" == "n/a" then "n/a" else hexOfStr addr
+      let ecS := if fieldD f0 "sec" == "n/a" then "n/a" else hexEnc sc
+      let model := s!"addr={hexOfStr addr} pkh={hexEnc h} s1={hexEnc sc} s2={hexEnc sc} s3={hexEnc sc} back={hexEnc h} addrs={hexOfStr (encodeAddress H256d true h)} new={hexEnc h} valid=1 aec={ecA} sec={ecS}"
       -- coherence: every constructor yields the same canonical 25-byte script; hash and address are recovered
       let f := impl.splitOn " "
       let pred := if impl.contains "PANIC" then "false:panic"
@@ -74,6 +79,7 @@ def c15Key (args : List String) (impl : String) : String × String :=
         else if fieldD f "s1" != hexEnc sc then "false:not-canonical-script"
         else if fieldD f "back" != fieldD f "pkh" || fieldD f "new" != fieldD f "pkh" then "false:hash-not-recovered"
         else if fieldD f "valid" != "1" then "false:own-address-does-not-validate"
+        else if fieldD f "aec" != ecA || fieldD f "sec" != ecS then "false:key-object-route-disagrees"
         else "true"
       (model, pred)
   | _ => ("bad-op", "n/a")
